@@ -372,6 +372,7 @@ def cyl_periodic_cases(ck: Check, n: int):
     from droplets.image_analysis import locate_droplets_in_mask
 
     rng = ck.rng
+    creqs, cexpect = [], []
     for i in range(n):
         nr, nz = rng.randint(2, 6), rng.randint(3, 9)
         dr, dz = rng.choice([1.0, 0.5]), rng.choice([1.0, 0.75])
@@ -390,14 +391,70 @@ def cyl_periodic_cases(ck: Check, n: int):
                 m[nr - 1, :] = True  # off-axis tube spanning the whole z axis
                 m[nr - 2, :] = False
         ck.count("cyl_periodic." + kind)
-        check_cyl_mask(ck, nr, nz, dr, dz, z0, m)
+        check_cyl_mask(ck, nr, nz, dr, dz, z0, m, creqs, cexpect, periodic=(i % 4 != 3))
+    compare_cyl_model(ck, creqs, cexpect)
 
 
-def check_cyl_mask(ck: Check, nr, nz, dr, dz, z0, m):
+def compare_cyl_model(ck: Check, creqs, cexpect):
+    """candidates of the cylindrical branch (before the overlap filter) vs Model/Cyl.lean"""
+    if not creqs:
+        return
+    try:
+        outs = run_driver(creqs)
+    except RuntimeError as e:
+        ck.mismatch("c02-cyl", f"driver unavailable: {e}", {})
+        return
+    for (case, cands, z0, dz, unit), out in zip(cexpect, outs):
+        if not out.startswith("ok"):
+            ck.mismatch("c02-cyl", f"model answered {out}", case)
+            continue
+        body = out[2:].strip()
+        if body == "spanning":
+            ck.mismatch("c02-cyl", "model signals a spanning on-axis cluster where the implementation returned candidates", case)
+            continue
+        items = [x for x in body.split(";") if x]
+        if len(items) != len(cands):
+            ck.mismatch("c02-cyl", f"implementation has {len(cands)} candidates {[(round(z, 4), round(v, 4)) for z, v in cands]}, model {items}", case)
+            continue
+        for it, (z, vol) in zip(items, cands):
+            zq, w = it.split(":")
+            mz = z0 + dz * float(Fraction(zq))
+            if abs(mz - z) > 1e-9 * max(1.0, abs(z)) or not rel_close(vol, unit * int(w), 1e-12):
+                ck.mismatch("c02-cyl", f"candidate (z={z}, volume={vol}) vs model (z={mz}, volume={unit * int(w)})", case)
+                break
+
+
+def check_cyl_mask(ck: Check, nr, nz, dr, dz, z0, m, creqs=None, cexpect=None, periodic=True):
     from pde import CylindricalSymGrid, ScalarField
+    from droplets.emulsions import Emulsion
     from droplets.image_analysis import locate_droplets_in_mask
 
-    grid = CylindricalSymGrid(nr * dr, [z0, z0 + nz * dz], [nr, nz], periodic_z=True)
+    grid = CylindricalSymGrid(nr * dr, [z0, z0 + nz * dz], [nr, nz], periodic_z=periodic)
+    if creqs is not None:
+        # correspondence: candidates before the overlap filter (periodic: tapped at remove_overlapping; else the result)
+        rec = {}
+        orig = Emulsion.remove_overlapping
+
+        def tapped(self, *a, **k):
+            rec.setdefault("cands", [(float(d.position[2]), float(d.volume)) for d in self])
+            return orig(self, *a, **k)
+
+        Emulsion.remove_overlapping = tapped
+        try:
+            em0 = locate_droplets_in_mask(ScalarField(grid, m, dtype=bool))
+        except Exception:  # noqa: BLE001  (reported by the predicate part below)
+            em0 = None
+        finally:
+            Emulsion.remove_overlapping = orig
+        if em0 is not None:
+            cands = rec.get("cands", [(float(d.position[2]), float(d.volume)) for d in em0])
+            if True:
+                creqs.append(f"c02 cyl {nr} {nz} {int(periodic)} " + " ".join(str(int(b)) for b in m.flat))
+                cexpect.append(({"kind": "cyl-periodic", "shape": [nr, nz], "dr": dr, "dz": dz, "z0": z0, "periodic": periodic, "mask": m.astype(int).tolist()},
+                                cands, z0, dz, math.pi * dr * dr * dz))
+                ck.count("cyl_model_correspondence")
+    if not periodic:
+        return
     if True:
         comps = components(m, [False, True])
         onaxis = [(cells, lifts, w) for cells, lifts, w in comps if any(c[0] == 0 for c in cells)]
